@@ -214,6 +214,14 @@ def run(ctx):
 
     # ---------------------------------------------------------------- R4
     n_up = 0
+    # the Langevin noise amplitude: zero wherever the inverse mass is zero, by value (whatever helpers / records compute it); shape-based def-chain reading otherwise
+    z_fields = set()
+    try:
+        from ..assembly import interpreted_langevin_coefficients
+        if interpreted_langevin_coefficients(repo)["zero_on_pad"]:
+            z_fields.add("langevin_c2")
+    except AnalysisError:
+        pass
     for rel in (MD, NAD):
         m = repo.mod(rel)
         for q, f in m.functions.items():
@@ -227,7 +235,7 @@ def run(ctx):
                         if isinstance(st, ast.Assign) and len(st.targets) == 1 and isinstance(st.targets[0], ast.Attribute) \
                                 and norm(st.targets[0].value) == "self":
                             fields.setdefault(st.targets[0].attr, st.value)
-            zp = ZeroOnPad(f, fields)
+            zp = ZeroOnPad(f, fields, z_self_fields=z_fields)
             done = set()
             for st in ast.walk(f):
                 if not isinstance(st, ast.stmt):
